@@ -1,11 +1,15 @@
 package conversions
 
 import (
+	"errors"
 	"fmt"
 	"math/big"
 
 	"github.com/pegnet/pegnetd/config"
 )
+
+// ErrOverflow is returned by Convert when the result does not fit an int64.
+var ErrOverflow = errors.New("integer overflow")
 
 // Convert
 // takes an input amount and returns an output amount that can be created
@@ -66,7 +70,7 @@ func Convert(height uint32, amount int64, fromRate, fromAvg, toRate, toAvg uint6
 	num := big.NewInt(0).Mul(amt, fr)
 	num.Div(num, tr)
 	if !num.IsInt64() {
-		return 0, fmt.Errorf("integer overflow")
+		return 0, ErrOverflow
 	}
 	return num.Int64(), nil
 }
